@@ -161,7 +161,12 @@ PROPS = {
                 "blocks gossiped 0..3 momentums ahead / restarts on the same directory / batches up to 120 with overlaps); per "
                 "history one producing node (transfers, receives, token issue/mint/burn, fuse, stake, delegate, refunds, blocks "
                 "acknowledging momentums up to 40 below the frontier) and five followers; monitors: every momentum accepted by "
-                "every follower, byte-identical frontier key space on all followers and the producer, identical query answers",
+                "every follower, byte-identical frontier key space on all followers and the producer, identical query answers; a sixth "
+                "follower receives, before each batch, a competing block (same account, same height, other content, signed on the "
+                "follower itself) for accounts whose next block the batch confirms; every sixth history is the deep scenario: > 360 "
+                "momentums, views at 19 heights (near/far cache boundary ±1) materialised on a follower, blocks pooled on the producer's "
+                "head, the head replaced by a two-momentum branch through InsertChain, then every view compared warm / after restart / "
+                "on a cold node that only saw the final chain",
         "partial": "that the Go VM is a function of exactly the inputs the model names is established by the multi-node "
                    "correspondence and the nondeterminism-site fact, not by a theorem; map-iteration order inside methods is only sampled",
         "assumptions": ["SHA3 collision freedom (ChangesHash pins the patch)"],
